@@ -12,8 +12,8 @@ use crate::repeat::Repeat;
 enum PadState<T> {
     // source values from front
     Before,
-    // source values from front
-    Front(Repeat<T>),
+    // source values from front (remembering the first value)
+    Front(Repeat<T>, T),
     // source values from inner
     Inner(T),
     // source values from back
@@ -84,27 +84,30 @@ where
             PadState::Before => {
                 if let Some(value) = self.inner.source() {
                     let front = Repeat::new(value.clone(), self.count);
-                    (Some(PadState::Front(front)), Some(value))
+                    (Some(PadState::Front(front, value.clone())), Some(value))
                 } else {
                     (Some(PadState::After), None)
                 }
             }
-            PadState::Front(ref mut front) => {
+            PadState::Front(ref mut front, ref first) => {
                 if let Some(value) = front.source() {
                     (None, Some(value))
                 } else if let Some(value) = self.inner.source() {
                     (Some(PadState::Inner(value.clone())), Some(value))
                 } else {
-                    (Some(PadState::After), None)
+                    // The first value is also the last one:
+                    let mut back = Repeat::new(first.clone(), self.count);
+                    let output = back.source();
+                    (Some(PadState::Back(back)), output)
                 }
             }
             PadState::Inner(ref value) => {
                 if let Some(value) = self.inner.source() {
                     (Some(PadState::Inner(value.clone())), Some(value))
                 } else {
-                    let count = if self.count > 0 { self.count - 1 } else { 0 };
-                    let back = Repeat::new(value.clone(), count);
-                    (Some(PadState::Back(back)), Some(value.clone()))
+                    let mut back = Repeat::new(value.clone(), self.count);
+                    let output = back.source();
+                    (Some(PadState::Back(back)), output)
                 }
             }
             PadState::Back(ref mut back) => {
